@@ -16,6 +16,9 @@ constant that contains the text, is not mistaken for a reference.
   parsers, every reference position of every schema a call returned, and of every definition in the export, names a
   definition of the export. This is the clause "every $ref in any returned schema or definition resolves in the final
   export" of C16 (and the `$ref` clause of C02) for histories in which every call returns.
+* `schema_flat_no_refs` / `flat_schema_has_no_ref`: outside contextual mode no reference position is ever written (a named type
+  is printed in place, a discriminated union by its variants): the flat `schema()` is self-contained.
+The combinator lemmas are stated once, for an arbitrary predicate on reference strings, and used for both modes.
 -/
 namespace BeffVerif.C16R
 open BeffVerif RT JsVal C16O C16N
@@ -302,17 +305,18 @@ variable (env : Env) (o : SOpts) (roots : List RT)
 /-- the reference of a name that some reachable runtype mentions -/
 def RefOf (s : String) : Prop := ∃ N rt t, CReach env o roots rt ∧ Mentions env o rt N t ∧ s = getRef o.refTemplate N
 
-def CtxOK (c : SCtx) : Prop := ∀ p ∈ c.collected, SOK (RefOf env o roots) p.2
-
-def Claim (go : RT → SCtx → SRes JsVal) (t : RT) : Prop :=
-  ∀ c s c', go t c = .ok s c' → CtxOK env o roots c → SOK (RefOf env o roots) s ∧ CtxOK env o roots c'
 end
+
+def CtxOK (P : String → Prop) (c : SCtx) : Prop := ∀ p ∈ c.collected, SOK P p.2
+
+def Claim (P : String → Prop) (go : RT → SCtx → SRes JsVal) (t : RT) : Prop :=
+  ∀ c s c', go t c = .ok s c' → CtxOK P c → SOK P s ∧ CtxOK P c'
 
 section
 variable {env : Env} {o : SOpts} {roots : List RT}
 
-theorem seqS_refs {go : RT → SCtx → SRes JsVal} : ∀ (ts : List RT), (∀ t ∈ ts, Claim env o roots go t) →
-    ∀ c ss c', seqS go ts c = .ok ss c' → CtxOK env o roots c → (∀ x ∈ ss, SOK (RefOf env o roots) x) ∧ CtxOK env o roots c' := by
+theorem seqS_refs {go : RT → SCtx → SRes JsVal} : ∀ (ts : List RT), (∀ t ∈ ts, Claim P go t) →
+    ∀ c ss c', seqS go ts c = .ok ss c' → CtxOK P c → (∀ x ∈ ss, SOK P x) ∧ CtxOK P c' := by
   intro ts
   induction ts with
   | nil =>
@@ -344,9 +348,9 @@ theorem seqS_refs {go : RT → SCtx → SRes JsVal} : ∀ (ts : List RT), (∀ t
     | throw e => rw [e1] at h; simp at h
     | nofuel => rw [e1] at h; simp at h
 
-theorem propsS_refs {go : RT → SCtx → SRes JsVal} : ∀ (props : List (String × RT)), (∀ p ∈ props, Claim env o roots go p.2) →
-    ∀ acc c r c', propsS go props acc c = .ok r c' → CtxOK env o roots c → (∀ q ∈ acc.1, SOK (RefOf env o roots) q.2) →
-      (∀ q ∈ r.1, SOK (RefOf env o roots) q.2) ∧ CtxOK env o roots c' := by
+theorem propsS_refs {go : RT → SCtx → SRes JsVal} : ∀ (props : List (String × RT)), (∀ p ∈ props, Claim P go p.2) →
+    ∀ acc c r c', propsS go props acc c = .ok r c' → CtxOK P c → (∀ q ∈ acc.1, SOK P q.2) →
+      (∀ q ∈ r.1, SOK P q.2) ∧ CtxOK P c' := by
   intro props
   induction props with
   | nil =>
@@ -384,8 +388,8 @@ theorem propsS_refs {go : RT → SCtx → SRes JsVal} : ∀ (props : List (Strin
     | nofuel => rw [e1] at h; simp at h
 
 theorem indexS_refs {go : RT → SCtx → SRes JsVal} : ∀ (ix : List (RT × RT)),
-    (∀ p ∈ ix, Claim env o roots go p.1 ∧ Claim env o roots go p.2) →
-    ∀ c ss c', indexS go ix c = .ok ss c' → CtxOK env o roots c → (∀ x ∈ ss, SOK (RefOf env o roots) x) ∧ CtxOK env o roots c' := by
+    (∀ p ∈ ix, Claim P go p.1 ∧ Claim P go p.2) →
+    ∀ c ss c', indexS go ix c = .ok ss c' → CtxOK P c → (∀ x ∈ ss, SOK P x) ∧ CtxOK P c' := by
   intro ix
   induction ix with
   | nil =>
@@ -430,8 +434,8 @@ theorem indexS_refs {go : RT → SCtx → SRes JsVal} : ∀ (ix : List (RT × RT
     | throw e => rw [e1] at h; simp at h
     | nofuel => rw [e1] at h; simp at h
 
-theorem defineS_refs {go : RT → SCtx → SRes JsVal} {name : String} {target : RT} (hg : Claim env o roots go target)
-    {c : SCtx} {u : Unit} {c' : SCtx} (h : defineS go name target c = .ok u c') (hi : CtxOK env o roots c) : CtxOK env o roots c' := by
+theorem defineS_refs {go : RT → SCtx → SRes JsVal} {name : String} {target : RT} (hg : Claim P go target)
+    {c : SCtx} {u : Unit} {c' : SCtx} (h : defineS go name target c = .ok u c') (hi : CtxOK P c) : CtxOK P c' := by
   unfold defineS at h
   split at h
   · simp only [SRes.ok.injEq] at h; rw [← h.2]; exact hi
@@ -449,9 +453,9 @@ theorem defineS_refs {go : RT → SCtx → SRes JsVal} {name : String} {target :
     | nofuel => rw [e1] at h; simp at h
 
 theorem variantsS_refs {go : RT → SCtx → SRes JsVal} {tgt : String × RT → String × Option RT} {template : String} :
-    ∀ (sm : List (String × RT)), (∀ kv ∈ sm, ∀ name t, tgt kv = (name, some t) → Claim env o roots go t) →
-    ∀ c refs c', variantsS go tgt template sm c = .ok refs c' → CtxOK env o roots c →
-      (∀ r ∈ refs, ∃ kv ∈ sm, ∃ name t, tgt kv = (name, some t) ∧ r.2 = getRef template name) ∧ CtxOK env o roots c' := by
+    ∀ (sm : List (String × RT)), (∀ kv ∈ sm, ∀ name t, tgt kv = (name, some t) → Claim P go t) →
+    ∀ c refs c', variantsS go tgt template sm c = .ok refs c' → CtxOK P c →
+      (∀ r ∈ refs, ∃ kv ∈ sm, ∃ name t, tgt kv = (name, some t) ∧ r.2 = getRef template name) ∧ CtxOK P c' := by
   intro sm
   induction sm with
   | nil =>
@@ -488,11 +492,11 @@ theorem variantsS_refs {go : RT → SCtx → SRes JsVal} {tgt : String × RT →
       | nofuel => rw [e1] at h; simp at h
 
 private theorem plainP {k : String} {v : JsVal} (h1 : k ≠ "$ref") (h2 : k ∉ singleKeys) (h3 : k ∉ listKeys) (h4 : k ≠ "properties")
-    (h5 : k ≠ "discriminator") : PairOK (RefOf env o roots) (k, v) := pair_plain h1 h2 h3 h4 h5
+    (h5 : k ≠ "discriminator") : PairOK P (k, v) := pair_plain h1 h2 h3 h4 h5
 
 /-- a schema object made of entries that hold no sub-schema and no reference -/
 theorem sok_flat (L : List (String × JsVal)) (h : ∀ p ∈ L, p.1 ∈ ["type", "enum", "const", "pattern", "format"]) :
-    SOK (RefOf env o roots) (jobj L) := by
+    SOK P (jobj L) := by
   apply sok_jobj
   intro p hp
   obtain ⟨k, v⟩ := p
@@ -505,16 +509,16 @@ theorem sok_flat (L : List (String × JsVal)) (h : ∀ p ∈ L, p.1 ∈ ["type",
 mentioned name** -/
 theorem schema_refs (hc : o.contextual = true) : ∀ (n : Nat) (rt : RT) (desc : Option String)
     (seen : List String) (c : SCtx) (s : JsVal) (c' : SCtx), CReach env o roots rt →
-    schema env o n rt desc seen c = .ok s c' → CtxOK env o roots c → SOK (RefOf env o roots) s ∧ CtxOK env o roots c' := by
+    schema env o n rt desc seen c = .ok s c' → CtxOK (RefOf env o roots) c → SOK (RefOf env o roots) s ∧ CtxOK (RefOf env o roots) c' := by
   intro n
   induction n with
   | zero => intro rt desc seen c s c' _ h; simp [schema] at h
   | succ n ih =>
     intro rt desc seen c s c' hr h hi
-    have goC : ∀ t, CReach env o roots t → Claim env o roots (fun t c => schema env o n t none seen c) t :=
+    have goC : ∀ t, CReach env o roots t → Claim (RefOf env o roots) (fun t c => schema env o n t none seen c) t :=
       fun t ht c s c' h hi => ih t none seen c s c' ht h hi
     have flat : ∀ (L : List (String × JsVal)), (∀ p ∈ L, p.1 ∈ ["type", "enum", "const", "pattern", "format"]) →
-        SRes.ok (annotate desc (jobj L)) c = SRes.ok s c' → SOK (RefOf env o roots) s ∧ CtxOK env o roots c' := by
+        SRes.ok (annotate desc (jobj L)) c = SRes.ok s c' → SOK (RefOf env o roots) s ∧ CtxOK (RefOf env o roots) c' := by
       intro L hL e
       simp only [SRes.ok.injEq] at e
       rw [← e.1, ← e.2]
@@ -627,10 +631,10 @@ theorem schema_refs (hc : o.contextual = true) : ∀ (n : Nat) (rt : RT) (desc :
         rw [e1] at h
         simp only at h
         have p1 := seqS_refs pre (fun t ht => goC t (.kid hr (by simp [ckids, ht]))) c x c1 e1 hi
-        have build : ∀ (items : JsVal) (c2 : SCtx), SOK (RefOf env o roots) items → CtxOK env o roots c2 →
+        have build : ∀ (items : JsVal) (c2 : SCtx), SOK (RefOf env o roots) items → CtxOK (RefOf env o roots) c2 →
             SRes.ok (annotate desc (jobj ([("type", JsVal.str "array")] ++ (if x.length > 0 then [("prefixItems", JsVal.arr x)] else []) ++
               [("items", items), ("minItems", JsVal.num (natToCanon pre.length))]))) c2 = SRes.ok s c' →
-            SOK (RefOf env o roots) s ∧ CtxOK env o roots c' := by
+            SOK (RefOf env o roots) s ∧ CtxOK (RefOf env o roots) c' := by
           intro items c2 hit hc2 e
           simp only [SRes.ok.injEq] at e
           rw [← e.1, ← e.2]
@@ -671,7 +675,7 @@ theorem schema_refs (hc : o.contextual = true) : ∀ (n : Nat) (rt : RT) (desc :
         have tail : ∀ (target : RT) (u : Unit) (c1 : SCtx), namedTarget env o name = some target →
             defineS (fun t c => schema env o n t none seen c) name target c = .ok u c1 →
             SRes.ok (annotate desc (jobj [("$ref", JsVal.str (getRef o.refTemplate name))])) c1 = SRes.ok s c' →
-            SOK (RefOf env o roots) s ∧ CtxOK env o roots c' := by
+            SOK (RefOf env o roots) s ∧ CtxOK (RefOf env o roots) c' := by
           intro target u c1 hnt e1 e
           have hm : Mentions env o (.ref name) name target := .ref hl hnt
           have hi1 := defineS_refs (goC _ (.target hr hm)) e1 hi
@@ -837,6 +841,304 @@ theorem schema_refs (hc : o.contextual = true) : ∀ (n : Nat) (rt : RT) (desc :
         | nofuel => rw [e2] at h; simp at h
       | throw e => rw [e1] at h; simp at h
       | nofuel => rw [e1] at h; simp at h
+
+/-- no string is a reference -/
+abbrev NoRef : String → Prop := fun _ => False
+
+/-- **the flat schema is self-contained**: outside contextual mode no reference position is ever written — a named type is
+printed in place, a discriminated union by its variants — so a flat `schema()` that returns has no `$ref` to resolve -/
+theorem schema_flat_no_refs (hc : o.contextual = false) : ∀ (n : Nat) (rt : RT) (desc : Option String)
+    (seen : List String) (c : SCtx) (s : JsVal) (c' : SCtx),
+    schema env o n rt desc seen c = .ok s c' → CtxOK NoRef c → SOK NoRef s ∧ CtxOK NoRef c' := by
+  intro n
+  induction n with
+  | zero => intro rt desc seen c s c' h; simp [schema] at h
+  | succ n ih =>
+    intro rt desc seen c s c' h hi
+    have goC : ∀ t, Claim NoRef (fun t c => schema env o n t none seen c) t :=
+      fun t c s c' h hi => ih t none seen c s c' h hi
+    have flat : ∀ (L : List (String × JsVal)), (∀ p ∈ L, p.1 ∈ ["type", "enum", "const", "pattern", "format"]) →
+        SRes.ok (annotate desc (jobj L)) c = SRes.ok s c' → SOK NoRef s ∧ CtxOK NoRef c' := by
+      intro L hL e
+      simp only [SRes.ok.injEq] at e
+      rw [← e.1, ← e.2]
+      exact ⟨sok_annotate (sok_flat L hL), hi⟩
+    cases rt with
+    | described dd t =>
+      simp only [schema] at h
+      exact ih t (some dd) seen c s c' h hi
+    | typeof t => simp only [schema] at h; exact flat _ (by simp) h
+    | any => simp only [schema] at h; exact flat _ (by simp) h
+    | nullish _ => simp only [schema] at h; exact flat _ (by simp) h
+    | never =>
+      simp only [schema, SRes.ok.injEq] at h
+      rw [← h.1, ← h.2]
+      refine ⟨sok_annotate (sok_jobj ?_), hi⟩
+      intro p hp
+      simp only [List.mem_cons, List.mem_nil_iff, or_false] at hp
+      subst hp
+      exact pair_single (by simp [singleKeys]) sok_empty
+    | regex _ _ => simp only [schema] at h; exact flat _ (by simp) h
+    | strfmt _ => simp only [schema] at h; exact flat _ (by simp) h
+    | numfmt _ => simp only [schema] at h; exact flat _ (by simp) h
+    | date => simp [schema] at h
+    | bigint => simp [schema] at h
+    | typed _ => simp [schema] at h
+    | map _ _ => simp [schema] at h
+    | set _ => simp [schema] at h
+    | const v =>
+      simp only [schema] at h
+      split at h <;> exact flat _ (by simp) h
+    | consts vs =>
+      simp only [schema] at h
+      split at h <;> exact flat _ (by simp) h
+    | array t =>
+      simp only [schema] at h
+      cases e1 : schema env o n t none seen c with
+      | ok x c1 =>
+        rw [e1] at h
+        simp only [SRes.ok.injEq] at h
+        rw [← h.1, ← h.2]
+        have p1 := goC t c x c1 e1 hi
+        refine ⟨sok_annotate (sok_jobj ?_), p1.2⟩
+        intro p hp
+        simp only [List.mem_cons, List.mem_nil_iff, or_false] at hp
+        rcases hp with rfl | rfl
+        · exact pair_plain (by decide) (by decide) (by decide) (by decide) (by decide)
+        · exact pair_single (by simp [singleKeys]) p1.1
+      | throw e => rw [e1] at h; simp at h
+      | nofuel => rw [e1] at h; simp at h
+    | optional t =>
+      simp only [schema] at h
+      cases e1 : schema env o n t none seen c with
+      | ok x c1 =>
+        rw [e1] at h
+        simp only [SRes.ok.injEq] at h
+        rw [← h.1, ← h.2]
+        have p1 := goC t c x c1 e1 hi
+        refine ⟨sok_jobj ?_, p1.2⟩
+        intro p hp
+        simp only [List.mem_cons, List.mem_nil_iff, or_false] at hp
+        subst hp
+        refine pair_list (by simp [listKeys]) ?_
+        intro y hy
+        simp only [List.mem_cons, List.mem_nil_iff, or_false] at hy
+        rcases hy with rfl | rfl
+        · exact p1.1
+        · exact sok_flat _ (by simp)
+      | throw e => rw [e1] at h; simp at h
+      | nofuel => rw [e1] at h; simp at h
+    | anyOf ts =>
+      simp only [schema] at h
+      cases e1 : seqS (fun t c => schema env o n t none seen c) ts c with
+      | ok x c1 =>
+        rw [e1] at h
+        simp only [SRes.ok.injEq] at h
+        rw [← h.1, ← h.2]
+        have p1 := seqS_refs ts (fun t ht => goC t) c x c1 e1 hi
+        refine ⟨sok_annotate (sok_jobj ?_), p1.2⟩
+        intro p hp
+        simp only [List.mem_cons, List.mem_nil_iff, or_false] at hp
+        subst hp
+        exact pair_list (by simp [listKeys]) p1.1
+      | throw e => rw [e1] at h; simp at h
+      | nofuel => rw [e1] at h; simp at h
+    | allOf ts =>
+      simp only [schema] at h
+      cases e1 : seqS (fun t c => schema env o n t none seen c) ts c with
+      | ok x c1 =>
+        rw [e1] at h
+        simp only at h
+        have p1 := seqS_refs ts (fun t ht => goC t) c x c1 e1 hi
+        split at h
+        · rename_i merged hm
+          simp only [SRes.ok.injEq] at h
+          rw [← h.1, ← h.2]
+          exact ⟨sok_annotate (sok_merge p1.1 hm), p1.2⟩
+        · simp only [SRes.ok.injEq] at h
+          rw [← h.1, ← h.2]
+          refine ⟨sok_annotate (sok_jobj ?_), p1.2⟩
+          intro p hp
+          simp only [List.mem_cons, List.mem_nil_iff, or_false] at hp
+          subst hp
+          exact pair_list (by simp [listKeys]) p1.1
+      | throw e => rw [e1] at h; simp at h
+      | nofuel => rw [e1] at h; simp at h
+    | tuple pre rest =>
+      simp only [schema] at h
+      cases e1 : seqS (fun t c => schema env o n t none seen c) pre c with
+      | ok x c1 =>
+        rw [e1] at h
+        simp only at h
+        have p1 := seqS_refs pre (fun t ht => goC t) c x c1 e1 hi
+        have build : ∀ (items : JsVal) (c2 : SCtx), SOK NoRef items → CtxOK NoRef c2 →
+            SRes.ok (annotate desc (jobj ([("type", JsVal.str "array")] ++ (if x.length > 0 then [("prefixItems", JsVal.arr x)] else []) ++
+              [("items", items), ("minItems", JsVal.num (natToCanon pre.length))]))) c2 = SRes.ok s c' →
+            SOK NoRef s ∧ CtxOK NoRef c' := by
+          intro items c2 hit hc2 e
+          simp only [SRes.ok.injEq] at e
+          rw [← e.1, ← e.2]
+          refine ⟨sok_annotate (sok_jobj ?_), hc2⟩
+          intro p hp
+          simp only [List.mem_append, List.mem_cons, List.mem_nil_iff, or_false] at hp
+          rcases hp with (rfl | hp) | rfl | rfl
+          · exact pair_plain (by decide) (by decide) (by decide) (by decide) (by decide)
+          · split at hp
+            · simp only [List.mem_cons, List.mem_nil_iff, or_false] at hp; subst hp
+              exact pair_list (by simp [listKeys]) p1.1
+            · cases hp
+          · exact pair_single (by simp [singleKeys]) hit
+          · exact pair_plain (by decide) (by decide) (by decide) (by decide) (by decide)
+        cases rest with
+        | none =>
+          simp only at h
+          exact build _ c1 (sok_bool false) p1.2 h
+        | some r =>
+          simp only at h
+          cases e2 : schema env o n r none seen c1 with
+          | ok y c2 =>
+            rw [e2] at h
+            simp only at h
+            have p2 := goC r c1 y c2 e2 p1.2
+            exact build y c2 p2.1 p2.2 h
+          | throw e => rw [e2] at h; simp at h
+          | nofuel => rw [e2] at h; simp at h
+      | throw e => rw [e1] at h; simp at h
+      | nofuel => rw [e1] at h; simp at h
+    | ref name =>
+      simp only [schema, hc] at h
+      cases hl : env.lookup name with
+      | none => rw [hl] at h; simp at h
+      | some to =>
+        rw [hl] at h
+        simp only [Bool.false_eq_true, if_false] at h
+        split at h
+        · simp only [SRes.ok.injEq] at h
+          rw [← h.1, ← h.2]
+          exact ⟨sok_annotate sok_empty, hi⟩
+        · split at h
+          · rename_i s1 c1 e1
+            simp only [SRes.ok.injEq] at h
+            rw [← h.1, ← h.2]
+            have p1 := ih to none (name :: seen) c s1 c1 e1 hi
+            exact ⟨sok_annotate p1.1, p1.2⟩
+          · rename_i r hr'
+            cases e1 : schema env o n to none (name :: seen) c with
+            | ok a b => exact absurd e1 (hr' a b)
+            | throw e => rw [e1] at h; cases h
+            | nofuel => rw [e1] at h; cases h
+    | disc schemas key mp sm =>
+      simp only [schema, hc, Bool.false_eq_true, if_false] at h
+      cases e1 : seqS (fun t c => schema env o n t none seen c) schemas c with
+      | ok x c1 =>
+        rw [e1] at h
+        simp only [SRes.ok.injEq] at h
+        rw [← h.1, ← h.2]
+        have p1 := seqS_refs schemas (fun t _ => goC t) c x c1 e1 hi
+        refine ⟨sok_annotate (sok_jobj ?_), p1.2⟩
+        intro p hp
+        simp only [List.mem_cons, List.mem_nil_iff, or_false] at hp
+        rcases hp with rfl | rfl | rfl
+        · exact pair_plain (by decide) (by decide) (by decide) (by decide) (by decide)
+        · refine ⟨fun e => by simp at e, fun e => by simp [singleKeys] at e, fun e => by simp [listKeys] at e, fun e => by simp at e, ?_⟩
+          intro _ d m ed hl
+          exfalso
+          simp only at ed
+          unfold jobj at ed
+          injection ed with ed
+          subst ed
+          rcases mem_foldl_setProp _ _ _ (lookupProp_mem' hl) with hm | hm
+          · cases hm
+          · simp only [List.mem_cons, List.mem_nil_iff, or_false, Prod.mk.injEq] at hm
+            exact absurd hm.1 (by decide)
+        · exact pair_list (by simp [listKeys]) p1.1
+      | throw e => rw [e1] at h; simp at h
+      | nofuel => rw [e1] at h; simp at h
+    | object props ix =>
+      simp only [schema] at h
+      cases e1 : propsS (fun t c => schema env o n t none seen c) props ([], []) c with
+      | ok x c1 =>
+        rw [e1] at h
+        obtain ⟨ps, optionalized⟩ := x
+        simp only at h
+        have p1 := propsS_refs props (fun p hp => goC p.2) ([], []) c _ c1 e1 hi
+          (fun q hq => by cases hq)
+        cases e2 : indexS (fun t c => schema env o n t none seen c) ix c1 with
+        | ok y c2 =>
+          rw [e2] at h
+          simp only at h
+          have p2 := indexS_refs ix (fun p hp => ⟨goC p.1, goC p.2⟩) c1 y c2 e2 p1.2
+          have hbase : ∀ (R : List (String × JsVal)), (∀ p ∈ R, p.1 = "required") →
+              ∀ p ∈ ([("type", JsVal.str "object"), ("properties", JsVal.obj ps)] ++ R), PairOK NoRef p := by
+            intro R hR p hp
+            simp only [List.mem_append, List.mem_cons, List.mem_nil_iff, or_false] at hp
+            rcases hp with (rfl | rfl) | hp
+            · exact pair_plain (by decide) (by decide) (by decide) (by decide) (by decide)
+            · exact pair_properties p1.1
+            · obtain ⟨k, v⟩ := p
+              have := hR _ hp
+              simp only at this
+              subst this
+              exact pair_plain (by decide) (by decide) (by decide) (by decide) (by decide)
+          have hreq : ∀ (req : List String), ∀ p ∈ (if req.length > 0 then [("required", JsVal.arr (req.map JsVal.str))] else []), p.1 = "required" := by
+            intro req p hp
+            split at hp
+            · simp only [List.mem_cons, List.mem_nil_iff, or_false] at hp; subst hp; rfl
+            · cases hp
+          split at h
+          · simp only [SRes.ok.injEq] at h
+            rw [← h.1, ← h.2]
+            refine ⟨sok_annotate (sok_jobj ?_), p2.2⟩
+            intro p hp
+            rw [List.mem_append] at hp
+            rcases hp with hp | hp
+            · exact hbase _ (hreq _) p hp
+            · simp only [List.mem_cons, List.mem_nil_iff, or_false] at hp; subst hp
+              exact pair_single (by simp [singleKeys]) (sok_bool false)
+          · split at h
+            · have hhead : SOK NoRef (y.headD .null) := by
+                cases y with
+                | nil => exact .nonobj (fun _ e => by cases e)
+                | cons a _ => exact p2.1 a (by simp)
+              split at h
+              · simp only [SRes.ok.injEq] at h
+                rw [← h.1, ← h.2]
+                refine ⟨sok_annotate (sok_jobj ?_), p2.2⟩
+                intro p hp
+                simp only [List.mem_cons, List.mem_nil_iff, or_false] at hp
+                rcases hp with rfl | rfl
+                · exact pair_plain (by decide) (by decide) (by decide) (by decide) (by decide)
+                · exact pair_single (by simp [singleKeys]) (sok_bool false)
+              · rename_i kvs hk
+                simp only [SRes.ok.injEq] at h
+                rw [← h.1, ← h.2]
+                rw [hk] at hhead
+                exact ⟨sok_annotate (sok_obj_of_pairs (pairs_setProp (pairs_of_sok_obj hhead)
+                  (pair_single (by simp [singleKeys]) (sok_bool true)))), p2.2⟩
+              · simp only [SRes.ok.injEq] at h
+                rw [← h.1, ← h.2]
+                exact ⟨sok_annotate hhead, p2.2⟩
+            · simp only [SRes.ok.injEq] at h
+              rw [← h.1, ← h.2]
+              refine ⟨sok_annotate (sok_jobj ?_), p2.2⟩
+              intro p hp
+              simp only [List.mem_cons, List.mem_nil_iff, or_false] at hp
+              subst hp
+              refine pair_list (by simp [listKeys]) ?_
+              intro z hz
+              rcases List.mem_cons.1 hz with rfl | hz
+              · exact sok_jobj (hbase _ (hreq _))
+              · exact p2.1 z hz
+        | throw e => rw [e2] at h; simp at h
+        | nofuel => rw [e2] at h; simp at h
+      | throw e => rw [e1] at h; simp at h
+      | nofuel => rw [e1] at h; simp at h
+
+/-- … in particular the flat `schema()` of a parser (a fresh, empty context) -/
+theorem flat_schema_has_no_ref (hc : o.contextual = false) {n : Nat} {rt : RT} {s : JsVal} {c' : SCtx}
+    (h : schema env o n rt none [] ⟨[], []⟩ = .ok s c') : SOK NoRef s :=
+  (schema_flat_no_refs hc n rt none [] ⟨[], []⟩ s c' h (fun p hp => by cases hp)).1
+
 end
 
 /-! ## histories -/
@@ -854,8 +1156,8 @@ def returned (env : Env) (o : SOpts) (fuel : Nat) : SCtx → List RT → List Js
 def Resolves (o : SOpts) (final : SCtx) (s : String) : Prop := ∃ N, s = getRef o.refTemplate N ∧ final.has N = true
 
 theorem run_refs {env : Env} {o : SOpts} {roots : List RT} (hc : o.contextual = true) (fuel : Nat) :
-    ∀ (calls : List RT) (c : SCtx), (∀ t ∈ calls, t ∈ roots) → CtxOK env o roots c → AllOk env o fuel c calls →
-      CtxOK env o roots (calls.foldl (printInto env o fuel) c) ∧
+    ∀ (calls : List RT) (c : SCtx), (∀ t ∈ calls, t ∈ roots) → CtxOK (RefOf env o roots) c → AllOk env o fuel c calls →
+      CtxOK (RefOf env o roots) (calls.foldl (printInto env o fuel) c) ∧
       ∀ s ∈ returned env o fuel c calls, SOK (RefOf env o roots) s := by
   intro calls
   induction calls with
